@@ -17,6 +17,7 @@ pub mod ranges;
 pub mod warning;
 
 use error::{Error, Result};
+use parsed_value::Fallbacks;
 use warning::Warnings;
 
 use crate::utils::{formatter::SkipIcuCfgGuard, Key, KeyPath, UnwrapAt};
@@ -89,7 +90,12 @@ pub fn make_builder_keys(
 
     locales.merge_plurals(warnings)?;
 
-    resolve_foreign_keys(&locales, &cfg_file.default, foreign_keys_paths.into_inner())?;
+    let fallbacks = Fallbacks {
+        default_locale: &cfg_file.default,
+        extensions: &cfg_file.extensions,
+    };
+
+    resolve_foreign_keys(&locales, fallbacks, foreign_keys_paths.into_inner())?;
 
     check_locales(locales, &cfg_file.extensions, warnings)
 }
@@ -114,7 +120,7 @@ pub fn parse_locales(
 
 fn resolve_foreign_keys(
     values: &LocalesOrNamespaces,
-    default_locale: &Key,
+    fallbacks: Fallbacks,
     foreign_keys_paths: BTreeSet<(Key, KeyPath)>,
 ) -> Result<()> {
     for (locale, value_path) in foreign_keys_paths {
@@ -126,7 +132,7 @@ fn resolve_foreign_keys(
                 values.get_value_at(&locale, &plural_path)
             })
             .unwrap_at("resolve_foreign_keys_1");
-        value.resolve_foreign_key(values, &locale, default_locale, &value_path)?;
+        value.resolve_foreign_key(values, &locale, fallbacks, &value_path)?;
     }
     Ok(())
 }
